@@ -113,7 +113,7 @@ M('slab:realloc-inplace-threshold', ['C01', 'C02'], 'slab.hpp', "		if(new_size >
 M('slab:realloc-copies-too-little', ['C02'], 'slab.hpp', "	memcpy(new_p, p, current_size);", "	memcpy(new_p, p, current_size > 64 ? current_size - 8 : current_size);")
 M('slab:realloc-forgets-free', ['C02', 'C03'], 'slab.hpp', "	memcpy(new_p, p, current_size);\n	free(p);\n	return new_p;", "	memcpy(new_p, p, current_size);\n	if(current_size != 256) free(p);\n	return new_p;")
 M('slab:realloc-zero-returns-p', ['C02'], 'slab.hpp', "	}else if(!new_size) {\n		free(p);\n		return nullptr;\n	}", "	}else if(!new_size) {\n		free(p);\n		return p;\n	}")
-M('slab:map-failure-slab-keeps-lock', ['C04'], 'slab.hpp', "			// Call into the Policy without holding locks.\n			bucket_guard.unlock();\n\n			auto slb = _construct_slab(index);\n			if(!slb)\n				return nullptr;", "			// Call into the Policy without holding locks.\n			bucket_guard.unlock();\n\n			auto slb = _construct_slab(index);\n			if(!slb) {\n				bucket_guard.lock();\n				bucket_guard = unique_lock<Mutex>();\n				return nullptr;\n			}")
+M('slab:map-failure-slab-keeps-lock', ['C04'], 'slab.hpp', "			auto slb = _construct_slab(index);\n			if(!slb)\n				return nullptr;", "			auto slb = _construct_slab(index);\n			if(!slb) {\n				bkt->bucket_mutex.lock();\n				return nullptr;\n			}")
 M('slab:map-failure-large-unchecked', ['C04'], 'slab.hpp', "		sb_base = _plcy.map(area_size + huge_padding + sb_size);\n		if(!sb_base)\n			return nullptr;", "		sb_base = _plcy.map(area_size + huge_padding + sb_size);\n		if(!sb_base && area_size > 8 * page_size)\n			return nullptr;")
 M('slab:realloc-failure-frees-source', ['C04'], 'slab.hpp', "	void *new_p = allocate(new_size);\n	if(!new_p)\n		return nullptr;", "	void *new_p = allocate(new_size);\n	if(!new_p) {\n		free(p);\n		return nullptr;\n	}")
 M('slab:policy-map-under-bucket-lock', ['C05', 'C01'], 'slab.hpp', "			// Call into the Policy without holding locks.\n			bucket_guard.unlock();\n\n			auto slb = _construct_slab(index);", "			auto slb = _construct_slab(index);\n			bucket_guard.unlock();")
